@@ -99,7 +99,7 @@ PROBE_HEAD = r'''
 #include <string.h>
 #include <stdint.h>
 %(includes)s
-static uint32_t probe_buf[8192];
+static uint32_t probe_buf[40000];
 static const void *mk(int n, int present)
 {
     uint8_t *b = (uint8_t *)probe_buf; uint16_t *vt = (uint16_t *)b; int vtsize = 4 + 2 * n; int tpos = (vtsize + 3) & ~3;
@@ -109,9 +109,21 @@ static const void *mk(int n, int present)
     memcpy(b + tpos, &so, 4); memcpy(b + tpos + 4, &four, 4);
     return b + tpos;
 }
+/* a table whose vtable ENDS after `len` field slots (an older writer): every field with a higher id is absent; the bytes after
+   the vtable are non-zero so that a reader looking past its end sees garbage */
+static const void *mk_short(int len)
+{
+    uint8_t *b = (uint8_t *)probe_buf; uint16_t *vt = (uint16_t *)b; int vtsize = 4 + 2 * len; int tpos = (vtsize + 3) & ~3;
+    int32_t so = tpos;
+    memset(b, 0x11, 4096 + (size_t)tpos);
+    memset(b, 0, (size_t)vtsize);
+    vt[0] = (uint16_t)vtsize; vt[1] = 12;
+    memcpy(b + tpos, &so, 4);
+    return b + tpos;
+}
 int main(void)
 {
-    int k; (void)k; (void)mk;
+    int k, spurious; const char *firstf; (void)k; (void)mk; (void)mk_short; (void)spurious; (void)firstf;
 '''
 
 
@@ -179,6 +191,15 @@ def probe_source(schema, headers, prefix='', lay=None):
                 if isu(f):
                     o.append('  if (%s_%s_type_get(t)) printf("IT %s %s %%d\\n", k);' % (c, f['name'], c, f['name']))
             o.append('}')
+            # vtables truncated at every length: a field whose slot lies beyond the end must read absent (also the hidden type fields)
+            o.append('spurious = 0; firstf = "-"; for (k = 0; k < %d; ++k) { %s_table_t t = (%s_table_t)mk_short(k);' % (n, c, c))
+            for f, (idv, tv) in zip(d.fields, ids):
+                if f.get('deprecated'): continue
+                o.append('  if (k <= %d && %s_%s_is_present(t)) { if (!spurious++) firstf = "%s"; }' % (idv, c, f['name'], f['name']))
+                if isu(f):
+                    o.append('  if (k <= %d && %s_%s_type_get(t)) { if (!spurious++) firstf = "%s_type"; }' % (tv, c, f['name'], f['name']))
+            o.append('}')
+            o.append('printf("X %s %%d %%s\\n", spurious, firstf);' % c)
             o.append('{ %s_table_t t = (%s_table_t)mk(%d, -1); (void)t;' % (c, c, n))
             for f in live:
                 t = f['type']; nm = f['name']
@@ -228,6 +249,7 @@ def expected_probe(schema, lay, ids_of, prefix=''):
         elif d.kind == 'table':
             ids = ids_of[d]
             if sum(2 if isu(f) else 1 for f in d.fields) >= 4000: continue
+            exp['X %s' % c] = '0 -'
             for f, (v, tv) in zip(d.fields, ids):
                 if f.get('deprecated'): continue
                 nm = f['name']
@@ -268,7 +290,7 @@ def parse_probe(out):
     for l in out.split('\n'):
         p = l.split()
         if not p: continue
-        if p[0] in ('S', 'W'): got['%s %s' % (p[0], p[1])] = ' '.join(p[2:])
+        if p[0] in ('S', 'W', 'X'): got['%s %s' % (p[0], p[1])] = ' '.join(p[2:])
         elif p[0] in ('I', 'IT'):
             key = '%s %s %s' % (p[0], p[1], p[2])
             got[key] = (got[key] + ',' + p[3]) if key in got else p[3]
